@@ -25,6 +25,7 @@ type buildFlags struct {
 	LoadOutputs string // all | minimal
 	HashAlgo    string
 	NoCache     bool // --enable-cache=false
+	Cwd         string // directory (relative to the workspace) in which grog is started
 }
 
 func (f buildFlags) args(platform string) []string {
@@ -296,11 +297,15 @@ func (e *histEngine) doBuild(j *buildJob) {
 		applyPreOp(box.WS(), op)
 	}
 	f := j.flags
-	rr := box.Run(e.grog, hist.RunOpts{Args: f.args(p.ws.platform()), Env: f.env()})
+	rr := box.Run(e.grog, hist.RunOpts{Args: f.args(p.ws.platform()), Env: f.env(), Cwd: f.Cwd})
 	e.mu.Lock()
 	e.builds++
 	e.mu.Unlock()
-	histNow := append(append([]string{}, p.hist...), "build "+f.Pattern)
+	buildName := "build " + f.Pattern
+	if f.Cwd != "" {
+		buildName += " (started in " + f.Cwd + "/)"
+	}
+	histNow := append(append([]string{}, p.hist...), buildName)
 	replay := map[string]any{"history": histNow, "flags": f, "source_toggles": p.ws.describe(), "grog_output_tail": tail(rr.Output, 1500), "trace": rr.Trace}
 	last := p.lastOp
 	if last == "" {
@@ -570,11 +575,13 @@ func histCheck(prop string, keep []string, quickOps, thoroughOps int, configure 
 
 func init() {
 	Registry["C01"] = func(c *Ctx) {
-		c.R.Rule = "explicit-state breadth-first search over build histories: a state is (source toggles, workspace outputs, abstract cache content); operations = 13 source edits (append byte, move a byte from the end of one input to the start of the next, add/rename file under a glob, command change with/without output change, declared outputs, fingerprint value, fingerprint '=' shift, alias edge <-> direct edge, inputs of two other targets, platform), two workspace pre-state operations (a stale file inside a directory output, a tampered file output) and `grog build //...` / `grog build //b:top` by the REAL binary on a cloned workspace+cache (every clone lives at a different absolute path); all histories of <= n operations with state de-duplication (quick: additionally all histories of <= n further operations after a first `build //...`, i.e. one operation deeper from the built state). After every build: exit 0, every declared output of every selected target equals a from-scratch build of the current sources (memoised per source state; the from-scratch build itself is checked against an absolute oracle: //b:app's output embeds the bytes of //a:lib's output, read both through $(output ...) and by path, and //b:top observed exactly that file), and no target is served from cache whose state (per a reference dictionary model) has no successful result. Non-trivial = a build with at least one cache hit and one execution."
+		c.R.Rule = "explicit-state breadth-first search over build histories: a state is (source toggles, workspace outputs, abstract cache content); operations = 13 source edits (append byte, move a byte from the end of one input to the start of the next, add/rename file under a glob, command change with/without output change, declared outputs, fingerprint value, fingerprint '=' shift, alias edge <-> direct edge, inputs of two other targets, platform), two workspace pre-state operations (a stale file inside a directory output, a tampered file output) and `grog build //...` / `grog build //b:top` / `grog build //...` started in the sub-directory a/src by the REAL binary on a cloned workspace+cache (every clone lives at a different absolute path); all histories of <= n operations with state de-duplication (quick: additionally all histories of <= n further operations after a first `build //...`, i.e. one operation deeper from the built state). After every build: exit 0, every declared output of every selected target equals a from-scratch build of the current sources (memoised per source state; the from-scratch build itself is checked against an absolute oracle: //b:app's output embeds the bytes of //a:lib's output, read both through $(output ...) and by path, and //b:top observed exactly that file), and no target is served from cache whose state (per a reference dictionary model) has no successful result. Non-trivial = a build with at least one cache hit and one execution."
 		c.R.Assume("commands of the model workspace are deterministic functions of their declared inputs and dependency outputs", "the reference cache model keys on (label, command, declared outputs, fingerprint, platform, input path+content, observed dependency output contents)", "histories longer than the bound and workspaces other than the 6-target model workspace are not covered")
 		histCheck("C01", []string{"C01:", "C04:build-hangs"}, 3, 5, func(e *histEngine, thorough bool) {
 			// restores happen over whatever the workspace holds: a polluted directory output and a tampered file output
 			e.preOps = []string{"add-stale-file-to-dist", "modify-lib-output"}
+			// the directory grog is started in is not part of any target's state
+			e.flags = append(e.flags, buildFlags{Pattern: "//...", Cwd: "a/src"})
 		})(c)
 		if !c.Thorough {
 			// quick: one operation deeper from the state after a first `build //...`
